@@ -60,6 +60,8 @@ pub struct CaseRun {
     pub steps: u64,
     pub sig: u64,
     pub interactions: u64,
+    /// interactions performed by the first incarnation (before any restart)
+    pub interactions_first: u64,
 }
 
 pub fn make_world(case: &FlowCase) -> W {
@@ -106,6 +108,7 @@ pub fn finish_run_multi(case: &FlowCase, setups: &[Setup], w: W, d: Driver, end:
         steps: d.steps,
         sig: d.sig.finish(),
         interactions,
+        interactions_first: interactions,
     }
 }
 
@@ -483,6 +486,7 @@ pub fn run_case_restart(case: &FlowCase, next_setups: &[Setup], rng: &mut Rng, e
     let stop_idle = case.stop_idle;
     let mut end = d.run(case.sched, rng, |d| d.count_state(&StateSnap::Idle) >= stop_idle);
     let mut setups = vec![case.setup.clone()];
+    let first_interactions = lock(&w).interactions;
     let mut panicked = d.panicked.clone();
     let mut lost = d.lost_wakes.clone();
     for ns in next_setups {
@@ -512,5 +516,143 @@ pub fn run_case_restart(case: &FlowCase, next_setups: &[Setup], rng: &mut Rng, e
     let mut run = finish_run_multi(case, &setups, w, d, end);
     run.panicked = panicked;
     run.lost_wakes = lost;
+    run.interactions_first = first_interactions;
     run
+}
+
+#[derive(Clone, Debug, Default)]
+pub struct Hostile {
+    pub ctl_budget: usize,
+    pub ctl_num: u64,
+    pub ctl_den: u64,
+    pub spurious: bool,
+    pub multi_release: bool,
+}
+
+/// Hostile scheduler: random gate order, several releases before one poll, spurious polls,
+/// control requests injected at arbitrary quiescent points.
+pub fn run_hostile(case: &FlowCase, rng: &mut Rng, h: &Hostile) -> CaseRun {
+    let w = make_world(case);
+    let mut d = Driver::new(&w, &case.setup);
+    d.max_steps = case.max_steps;
+    let mut budget = h.ctl_budget;
+    let end = loop {
+        d.settle();
+        if d.panicked.is_some() {
+            break RunEnd::Panicked;
+        }
+        if d.crashed() {
+            break RunEnd::Crashed;
+        }
+        if d.ended {
+            break RunEnd::Ended;
+        }
+        if d.out_of_steps {
+            break RunEnd::OutOfSteps;
+        }
+        if d.count_state(&StateSnap::Idle) >= case.stop_idle {
+            break RunEnd::Stopped;
+        }
+        if budget > 0 && h.ctl_den > 0 && rng.chance(h.ctl_num, h.ctl_den) && !d.handles.is_empty() {
+            budget -= 1;
+            let od = rng.bool();
+            d.send_control(0, od);
+            continue;
+        }
+        if h.spurious && rng.chance(1, 8) {
+            d.spurious_poll();
+            continue;
+        }
+        let gates = d.pending_gates();
+        if gates.is_empty() {
+            break RunEnd::Blocked;
+        }
+        let g = gates[rng.usize(gates.len())];
+        d.release(g);
+        if h.multi_release && rng.chance(1, 3) {
+            let gates = d.pending_gates();
+            if !gates.is_empty() {
+                let g = gates[rng.usize(gates.len())];
+                d.release(g);
+            }
+        }
+    };
+    finish_run(case, w, d, end)
+}
+
+pub const HEADER_VALUES: [&[u8]; 30] = [
+    b"0", b"1", b"30", b"3600", b"86399", b"86400", b"86401", b"100000", b"4294967295", b"4294967296", b"4294967297",
+    b"9223372036854775807", b"9223372036854775808", b"18446744073709551615", b"18446744073709551616",
+    b"99999999999999999999999999999999999999", b"000000000000000000000000000000000000060", b"007", b"", b" 60", b"60 ",
+    b"6 0", b"-60", b"60s", b"1e3", b"0x10", b"60.0", b"\xff\xfe", b"\xef\xbc\x96\xef\xbc\x90", b"+60",
+];
+
+/// Attach X-Retry-After headers (from the grammar above, duplicates included) to scripted replies.
+pub fn decorate_retry_after(script: &mut Script, rng: &mut Rng, num: u64, den: u64) -> String {
+    let mut label = String::new();
+    let mut deco = |r: &mut RespSpec, rng: &mut Rng, label: &mut String| {
+        if let RespSpec::Reply(rep) = r {
+            if rng.chance(num, den) {
+                let i = rng.usize(HEADER_VALUES.len());
+                rep.headers.push(("X-Retry-After".into(), HEADER_VALUES[i].to_vec()));
+                label.push_str(&format!("h{},", i));
+                if rng.chance(1, 10) {
+                    // duplicate header: same value (definite) or a different one (don't-care)
+                    let j = if rng.bool() { i } else { rng.usize(HEADER_VALUES.len()) };
+                    rep.headers.push(("x-retry-after".into(), HEADER_VALUES[j].to_vec()));
+                    label.push_str(&format!("dup{},", j));
+                }
+            } else {
+                label.push_str("-,");
+            }
+        }
+    };
+    for c in script.checks.iter_mut() {
+        for a in c.attempts.iter_mut() {
+            deco(a, rng, &mut label);
+        }
+        for a in c.reports.iter_mut() {
+            deco(a, rng, &mut label);
+        }
+    }
+    for p in script.pings.iter_mut() {
+        deco(p, rng, &mut label);
+    }
+    label
+}
+
+/// Give install checks a reboot wait with pings: reboot needed, not allowed for a few rounds.
+pub fn add_reboot_waits(script: &mut Script, rng: &mut Rng, ping_docs: bool, apps: &[AppSpec]) -> String {
+    let mut label = String::new();
+    for c in script.checks.iter_mut() {
+        if c.reboot_needed {
+            let n = rng.usize(4);
+            c.reboot_allowed = (0..n).map(|_| false).chain(std::iter::once(true)).collect();
+            label.push_str(&format!("rw{},", n));
+        }
+    }
+    for _ in 0..6 {
+        let p = match rng.below(6) {
+            0 => RespSpec::Transport,
+            1 => RespSpec::Reply(ReplySpec::status(503)),
+            2 => RespSpec::Reply(ReplySpec::ok(BodySpec::Raw(b"not json".to_vec()))),
+            _ => {
+                if ping_docs {
+                    let mut docapps = vec![];
+                    for a in apps.iter() {
+                        if rng.chance(4, 5) {
+                            docapps.push(DocApp { id: a.id.clone(), status: "ok".into(), cohort: [gen_cohort_field(rng), gen_cohort_field(rng), gen_cohort_field(rng)], updatecheck: None });
+                        }
+                    }
+                    RespSpec::Reply(ReplySpec::ok(BodySpec::Doc(DocSpec { daystart: gen_daystart(rng), apps: docapps })))
+                } else {
+                    RespSpec::ack()
+                }
+            }
+        };
+        label.push_str(&p.label());
+        label.push(',');
+        script.pings.push(p);
+    }
+    label
 }
